@@ -1,5 +1,6 @@
 //! wwv — conformance harness: drives the real white-whale-core contracts (cw-multi-test)
 //! and records ndjson traces that TLC validates against the TLA+ specifications in ../spec.
+mod adversary;
 mod gen;
 mod rec;
 mod suites;
@@ -29,6 +30,7 @@ fn main() {
     world::silence_panics();
     match suite.as_str() {
         "pool" => suites::pool::main(seed, first, runs, ops, &out),
+        "vault" => suites::vault::main(seed, first, runs, ops, &out),
         "math" => suites::math::main(seed, first, runs, ops, &out, kv.get("kind").map(|s| s.as_str()).unwrap_or("all")),
         _ => {
             eprintln!("unknown suite {suite}");
